@@ -4,6 +4,7 @@
 import D42.Model.Codec
 import D42.Model.Validate
 import D42.Model.Gen
+import D42.Model.Subst
 
 open D42 D42.Sexp
 
@@ -49,6 +50,14 @@ def handle (e : Sexp) : Sexp :=
           .list [encNats "s" r.1, .list (.atom "reqs" :: r.2.2.map encReq), encNat r.2.1.length])
          (runGen (genSeq rs) ds)
      | _, _ => .atom "BADINPUT")
+  | .list [.atom "subst", s, v, tab] =>
+    (match decSchema s, decVal v, decRxTab tab with
+     | some s, some v, some tab => encExcept encSchema (subst (mkEnv tab) s v)
+     | _, _, _ => .atom "BADINPUT")
+  | .list [.atom "fromnative", v] =>
+    (match decVal v with
+     | some v => encExcept encSchema (fromNative v)
+     | _ => .atom "BADINPUT")
   | .list [.atom "echo-schema", s] =>
     (match decSchema s with | some s => encSchema s | none => .atom "BADINPUT")
   | .list [.atom "echo-value", v] =>
